@@ -55,7 +55,7 @@ def text_operands_to_bits(texts):
     """decimal operands written as text in the suite ("-1.5", "Infinity", "SNaN"): converted exactly the way the suite's macro does it,
     d128::from(&str), by the harness (op fromstr2)"""
     import subprocess
-    hb = '/verif/harness/target/debug/verif-harness'
+    hb = os.path.join(os.path.dirname(os.path.dirname(os.path.abspath(__file__))), 'harness', 'target', 'debug', 'verif-harness')
     if not texts or not os.path.exists(hb): return {}
     texts = sorted(texts)
     inp = ''.join('fromstr2 0 0 %s\n' % (t.encode().hex() or '-') for t in texts)
